@@ -2,7 +2,7 @@
    clean.  Statements only; the fan-out model of C01/C02. *)
 From Lal Require Import Common.LBytes Group.GroupMsg Group.GroupGopCache Group.GroupFanout
   Group.GroupGopCacheProofs Group.GroupFanoutProofs Group.GroupFanoutCacheProofs Group.GroupFanoutAdmitProofs
-  Group.GroupFanoutRestartProofs.
+  Group.GroupFanoutRestartProofs Group.GroupFanoutHookProofs Group.GroupIdle Group.GroupIdleProofs.
 Open Scope N_scope.
 
 (* Teardown (delIn): the input is gone, the FLV recording is closed with its
@@ -27,7 +27,8 @@ Theorem c16_clears : forall cf s, g_in s = true ->
   let s' := step cf s EvInStop in
   g_video_known s' = false /\ g_patpmt s' = None /\
   prologue (g_rtmp_cache s') false = [] /\ prologue (g_rtmp_cache s') true = [] /\
-  prologue (g_flv_cache s') false = [] /\ gc_all (g_ts_cache s') = [] /\ gc_count (g_ts_cache s') = 0%nat.
+  prologue (g_flv_cache s') false = [] /\ gc_all (g_ts_cache s') = [] /\ gc_count (g_ts_cache s') = 0%nat /\
+  g_sdp s' = None.
 Proof. exact in_stop_clears. Qed.
 Print Assumptions c16_clears.
 
@@ -43,13 +44,121 @@ Theorem c16_clean_restart : forall cf h1 h2 w,
 Proof. exact restart_prologue_fresh. Qed.
 Print Assumptions c16_clean_restart.
 
+(* The stream hook, over all histories.  What the hook has been told is a
+   function of the history alone ([hrun]: one entry per input, holding the
+   indices of exactly the non-empty messages published while that input was
+   attached, in order, each once), and OnStop was called exactly once for every
+   input that has ended and not yet for the one still attached ([hook_ok]).
+   The teardown is what calls it, and a repeated teardown does not call it again. *)
+Theorem c16_hook_once : forall cf h,
+  g_hook (run cf h) = hs_hook (hrun cf h) /\ hook_ok cf (g_in (run cf h)) (g_hook (run cf h)).
+Proof. intros cf h. split; [apply hook_follows_history|apply hook_once_run]. Qed.
+Print Assumptions c16_hook_once.
+
+Theorem c16_hook_stop : forall cf s, g_in s = true -> cf_hook cf = true ->
+  g_hook (step cf s EvInStop) = hook_stop (g_hook s) /\
+  g_hook (step cf (step cf s EvInStop) EvInStop) = hook_stop (g_hook s).
+Proof. exact in_stop_hook. Qed.
+Print Assumptions c16_hook_stop.
+
+(* The MPEG-TS recording, over all histories: one file per input, holding
+   exactly the PAT/PMT and TS blobs handed to the group while that input was
+   attached, in order ([trun] is a function of the history alone); the teardown
+   closes the file with its content unchanged and nothing is appended to any
+   file while no input is attached. *)
+Theorem c16_ts_record : forall cf h,
+  g_trec (run cf h) = tp_rec (trun cf h) /\
+  (forall s, g_trec (step cf s EvInStop) = g_trec s) /\
+  (forall s e, g_in s = false -> e <> EvInStart -> g_trec (step cf s e) = g_trec s).
+Proof.
+  intros cf h. split; [apply trec_follows_history|]. split; [apply in_stop_trec|apply no_input_no_trec].
+Qed.
+Print Assumptions c16_ts_record.
+
+(* Server shutdown (Group.Dispose): every sub session is disposed holding
+   exactly what it had received (all move to the detached set, nothing is sent),
+   and the input - if there is one - is finalised as by delIn: recordings closed
+   with their content, the hook told to stop, caches, codec information, SDP and
+   PAT/PMT wiped.  Exactly once here too: after an input that had already ended,
+   or a second Dispose, the hook is not told again. *)
+Theorem c16_finalises_dispose : forall cf s,
+  let s' := step cf s EvDispose in
+  g_in s' = false /\ g_subs s' = [] /\ g_gone s' = g_gone s ++ g_subs s /\
+  g_rec_open s' = false /\ g_rec s' = g_rec s /\ g_trec s' = g_trec s /\
+  g_hook s' = (if g_in s && cf_hook cf then hook_stop (g_hook s) else g_hook s) /\
+  g_video_known s' = false /\ g_patpmt s' = None /\ g_sdp s' = None /\
+  prologue (g_rtmp_cache s') false = [] /\ prologue (g_rtmp_cache s') true = [] /\
+  prologue (g_flv_cache s') false = [] /\ gc_all (g_ts_cache s') = [].
+Proof. exact dispose_finalises. Qed.
+Print Assumptions c16_finalises_dispose.
+
+Theorem c16_dispose_once : forall cf s,
+  g_hook (step cf (step cf s EvInStop) EvDispose) = g_hook (step cf s EvInStop) /\
+  g_hook (step cf (step cf s EvDispose) EvDispose) = g_hook (step cf s EvDispose) /\
+  g_hook (step cf (step cf s EvDispose) EvInStop) = g_hook (step cf s EvDispose).
+Proof. exact dispose_after_stop. Qed.
+Print Assumptions c16_dispose_once.
+
+(* Idle check (Group.disposeInactiveSessions + BasicSessionStat.isAlive): at a
+   sweep (every 120th tick) a publisher whose connection read nothing since the
+   previous sweep is disposed, one that read something is kept; subscribers
+   likewise by written bytes; nobody at the first look, relay-push sessions
+   never, and nothing happens on other ticks.  All byte-counter values < 2^64. *)
+Theorem c16_idle_input_dropped : forall s r0 w0 k,
+  (k = SPubRtmp \/ k = SPubRtsp) -> ss_kind s = k ->
+  st_stale (ss_stat s) = Some (r0, w0) ->
+  ss_r s < 18446744073709551616 -> ss_w s < 18446744073709551616 -> r0 < 18446744073709551616 -> w0 < 18446744073709551616 ->
+  ss_closed (sweep_one s) = ss_closed s || (ss_r s =? r0).
+Proof. exact idle_input_dropped. Qed.
+Print Assumptions c16_idle_input_dropped.
+
+Theorem c16_stalled_subscriber_dropped : forall s r0 w0,
+  (ss_kind s = SSubRtmp \/ ss_kind s = SSubRtsp \/ ss_kind s = SSubFlv \/ ss_kind s = SSubTs) ->
+  st_stale (ss_stat s) = Some (r0, w0) ->
+  ss_r s < 18446744073709551616 -> ss_w s < 18446744073709551616 -> r0 < 18446744073709551616 -> w0 < 18446744073709551616 ->
+  ss_closed (sweep_one s) = ss_closed s || (ss_w s =? w0).
+Proof. exact stalled_subscriber_dropped. Qed.
+Print Assumptions c16_stalled_subscriber_dropped.
+
+Theorem c16_sweep_only_then : forall n l s,
+  (n mod check_interval <> 0 -> tick n l = l) /\
+  (st_stale (ss_stat s) = None -> ss_closed (sweep_one s) = ss_closed s) /\
+  (ss_kind s = SPush -> sweep_one s = s).
+Proof. intros n l s. split; [apply off_ticks_do_nothing|]. split; [apply first_sweep_keeps|apply push_never_swept]. Qed.
+Print Assumptions c16_sweep_only_then.
+
+(* a group is removable (ServerManager's tick disposes it) exactly when it has
+   no input, no output session and no relay pull pending *)
+Theorem c16_group_reaped : forall i o p, group_inactive i o p = true <-> i = false /\ o = false /\ p = false.
+Proof. exact group_inactive_iff. Qed.
+Print Assumptions c16_group_reaped.
+
 (* the recording of an input holds exactly its non-empty messages: every step
    of an admitted consumer theorem of C01 applies to it as well; here the
    concrete non-vacuity check with a restart *)
 Definition c16_cfg : cfg :=
   {| cf_rtmp_enable := true; cf_rtmp_gop := 2; cf_rtmp_max := 0; cf_flv_enable := true; cf_flv_gop := 2; cf_flv_max := 0;
-     cf_ts_gop := 1; cf_ts_max := 0; cf_merge := 0; cf_record_flv := true; cf_chunk := 4096; cf_ext_at_limit := false |}.
+     cf_ts_gop := 1; cf_ts_max := 0; cf_merge := 0; cf_record_flv := true; cf_chunk := 4096; cf_ext_at_limit := false;
+     cf_rtsp_wait := true; cf_hook := true; cf_record_ts := true |}.
 Definition c16_v (b0 b1 t : N) : rmsg := {| rm_type := 9; rm_ts := 0; rm_payload := [b0; b1; 0; 0; 0; t] |}.
+Example c16_hook_nonvacuous :
+  let h := [EvPublish (c16_v 23 0 9); EvInStart; EvPublish (c16_v 23 0 1); EvPublish {| rm_type := 8; rm_ts := 0; rm_payload := [] |};
+            EvPublish (c16_v 23 1 2); EvInStop; EvInStop; EvInStart; EvPublish (c16_v 23 1 3)] in
+  g_hook (run c16_cfg h) = [([4%nat], 0%nat); ([1%nat; 3%nat], 1%nat)].
+Proof. vm_compute. reflexivity. Qed.
+
+Example c16_ts_record_nonvacuous :
+  let h := [EvTs true; EvInStart; EvPatPmt; EvTs true; EvTs false; EvInStop; EvTs true; EvPatPmt; EvInStart; EvPatPmt; EvTs true] in
+  g_trec (run c16_cfg h) = [[LPat 2; LTs 4]; [LPat 0; LTs 1; LTs 2]].
+Proof. vm_compute. reflexivity. Qed.
+
+Example c16_dispose_nonvacuous :
+  let h := [EvInStart; EvJoin KFlv 1; EvJoin KRtmp 2; EvJoin KPush 7; EvPublish (c16_v 23 0 1); EvPublish (c16_v 23 1 2); EvPatPmt; EvDispose] in
+  let s := run c16_cfg h in
+  g_subs s = [] /\ length (g_gone s) = 3%nat /\ g_hook s = [([0%nat; 1%nat], 1%nat)] /\ g_rec s = [[LT 0; LT 1]] /\ g_trec s = [[LPat 0]] /\
+  option_map c_out (find (fun c => c_id c =? 1) (g_gone s)) = Some [LT 0; LT 1].
+Proof. vm_compute. repeat split; reflexivity. Qed.
+
 Example c16_nonvacuous :
   let h1 := [EvInStart; EvJoin KPush 7; EvPublish (c16_v 23 0 1); EvPublish (c16_v 23 1 2)] in
   let h2 := [EvInStart; EvPublish (c16_v 23 0 3); EvJoin KFlv 1; EvPublish (c16_v 23 1 4)] in
